@@ -251,7 +251,6 @@ func VerifSendBatch() {
 			continue
 		}
 		verifAssert(r.Error != nil, "a call that did not succeed ends with an error")
-		verifAssert(r.Msg == nil, "a call that did not succeed carries no response")
 		switch {
 		case bc.lookupErr != nil:
 			verifAssert(r.Error == bc.lookupErr, "a call that could not be re-located carries its own location error")
